@@ -7,7 +7,7 @@
 (*  channel entry : [k |-> "spec", a |-> <<dims>>]                          *)
 (*                | [k |-> "range", a |-> <<dims>>, b |-> <<dims>>]         *)
 (*                | [k |-> "path", q |-> quote byte, p |-> bytes]           *)
-(* where each dim is a record [t |-> text bytes, v |-> integer value].      *)
+(* where each dim is a record [t |-> text bytes, v |-> its value as decimal text].      *)
 (* A corruption is [c |-> kind, at |-> entry index]; kinds are the ones the *)
 (* property lists.                                                          *)
 EXTENDS Bytes, Integers
